@@ -5,6 +5,10 @@ use crate::util::Stats;
 use std::io::Write;
 
 pub mod url;
+pub mod ruler;
+pub mod eset;
+pub mod render;
+pub mod smap;
 
 pub struct Out {
     pub cases: std::io::BufWriter<std::fs::File>,
@@ -37,5 +41,10 @@ pub type StreamFn = fn(n: usize, rng: &mut Rng, out: &mut Out);
 pub fn streams() -> Vec<(&'static str, StreamFn)> {
     vec![
         ("url", url::run as StreamFn),
+        ("ruler", ruler::run as StreamFn),
+        ("eset", eset::run as StreamFn),
+        ("tree", eset::run_tree as StreamFn),
+        ("render", render::run as StreamFn),
+        ("smap", smap::run as StreamFn),
     ]
 }
